@@ -1164,6 +1164,30 @@ class Analyzer:
                 continue
             if cs.is_generator:
                 continue
+            if any(head(a) == "star" for a in c[2]):
+                # f(x, *radii) with radii a tuple known by now (e.g. the result of an option helper spliced earlier)
+                args2 = []
+
+                def width(t_):
+                    t_ = strip(t_)
+                    if head(t_) == "tuple":
+                        return len(t_[1])
+                    if head(t_) == "ite":
+                        a_, b_ = width(t_[2]), width(t_[3])
+                        return a_ if a_ is not None and a_ == b_ else None
+                    return None
+
+                def proj(t_, k_):
+                    t_ = strip(t_)
+                    return t_[1][k_] if head(t_) == "tuple" else ("ite", t_[1], proj(t_[2], k_), proj(t_[3], k_))
+                for a in c[2]:
+                    av = strip(subst(a[1], repl)) if head(a) == "star" else None
+                    n_ = width(av) if av is not None else None
+                    if n_ is not None:
+                        args2.extend(proj(av, k_) for k_ in range(n_))
+                    else:
+                        args2.append(a)
+                c = ("call", c[1], tuple(args2), c[3])
             bind = self.bind_call(cs, c, self_term=selft)
             if bind is None:
                 continue
@@ -1213,9 +1237,20 @@ class Analyzer:
         if not repl:
             return
 
+        def beta(x):
+            # (lambda p: body)(a)  ->  body[p := a]   (a helper value that ended up in callee position)
+            if not isinstance(x, tuple):
+                return x
+            x = tuple(beta(y) for y in x)
+            if head(x) == "call" and head(strip(x[1])) == "lam":
+                r_ = apply_lam(strip(x[1]), x[2], dict(x[3]))
+                if r_ is not None:
+                    return r_
+            return x
+
         def rp(v):
             if isinstance(v, tuple):
-                return subst(v, repl)
+                return beta(subst(v, repl))
             if isinstance(v, list):
                 return [rp(y) for y in v]
             return v
